@@ -19,6 +19,7 @@ Core Lean only (linked into pcdrv).
 -/
 import PcModel.PhiAlg
 import PcModel.PiTable
+import PcModel.PhiVector
 namespace Pc.PhiCacheL2
 
 /-- `BitSieve240::unset_bit_[r]` (generated data) -/
@@ -191,5 +192,28 @@ def phiCpp (P : PhiTop) (maxXEst : Nat) (works : List (List Nat)) (x a : Int) : 
     let E : PhiEnv := { prime := P.prime, piSize := Nat.sqrt xn + 1, piTab := P.piTab, tiny := P.tiny,
                         cache := { maxX := 0, maxA := 0, val := fun _ _ => 0 } }
     (P.tiny xn phiTinyMaxA : Int) + (works.map (phiThread E xn a.toNat maxXEst)).sum
+
+/-! ### `phi_vector(x, a, primes, pi)` (src/phi_vector.cpp) with its real `PhiCache` object.
+The class text is the one of phi.cpp up to `max_x = isqrt(x)` (PcProps/C07Cache.lean `phiVector_cache_same_text`). -/
+
+/-- first loop of `phi_vector` (`phi[i] = phi[i - 1] + cache.phi<-1>(x / primes[i - 1], i - 2)`), the cache object
+    threaded through the calls; mirrors `PhiVec.loop1` -/
+def vecLoop1S (E : PhiEnv) (sqrtX x a : Nat) : Nat → Nat → List Int → State → (Nat × List Int) × State
+  | 0, i, acc, st => ((i, acc), st)
+  | fuel + 1, i, acc, st =>
+    if i ≤ a ∧ E.prime (i - 1) ≤ sqrtX then
+      let r := phiRecS E i (-1) (x / E.prime (i - 1)) (i - 2) st
+      vecLoop1S E sqrtX x a fuel (i + 1) (acc ++ [acc.getD (i - 1) 0 + r.1]) r.2
+    else ((i, acc), st)
+
+/-- `phi_vector(x, a, primes, pi)` for `x ≥ 0`, `a ≥ 0` with `PhiCache<Primes> cache(x, a, primes, pi)`
+    (`max_x = isqrt(x)`, `a` already replaced by `pi[x]` when `primes[a] > x`) -/
+def phiVectorS (E : PhiEnv) (piX sqrtX x a : Nat) : List Int :=
+  if a + 1 > 1 then
+    let a' := if E.prime a > x then piX else a
+    let r1 := (vecLoop1S E sqrtX x a' (a + 1) 2 [0, (x : Int)] (State.new a' sqrtX)).1
+    let r2 := PhiVec.loop2 x a' (a + 1) r1.1 r1.2
+    PhiVec.loop3 x (a + 1) (a + 1) r2.1 r2.2
+  else [0]
 
 end Pc.PhiCacheL2
